@@ -648,3 +648,221 @@ pub fn file_beyond_4gib() -> Result<u64, Violation> {
     }
     Ok(reads)
 }
+
+
+/// A growable backend that stores only the 4096-byte pages that are not all zero (a file of
+/// several GiB of zero-filled stream data costs a few MB).
+#[derive(Clone)]
+pub struct SparseRw {
+    inner: std::sync::Arc<std::sync::Mutex<SparseInner>>,
+    pos: u64,
+}
+struct SparseInner {
+    pages: std::collections::HashMap<u64, Box<[u8; 4096]>>,
+    len: u64,
+}
+impl SparseRw {
+    pub fn new() -> SparseRw {
+        SparseRw { inner: std::sync::Arc::new(std::sync::Mutex::new(SparseInner { pages: std::collections::HashMap::new(), len: 0 })), pos: 0 }
+    }
+    pub fn len(&self) -> u64 {
+        self.inner.lock().unwrap().len
+    }
+    pub fn stored_pages(&self) -> usize {
+        self.inner.lock().unwrap().pages.len()
+    }
+    /// The whole image; untouched zero pages of the vector cost no memory (zeroed allocation).
+    pub fn materialise(&self) -> Vec<u8> {
+        let g = self.inner.lock().unwrap();
+        let mut v = vec![0u8; g.len as usize];
+        for (k, p) in g.pages.iter() {
+            let off = (*k * 4096) as usize;
+            let n = 4096.min(v.len().saturating_sub(off));
+            v[off..off + n].copy_from_slice(&p[..n]);
+        }
+        v
+    }
+}
+impl std::io::Read for SparseRw {
+    fn read(&mut self, buf: &mut [u8]) -> std::io::Result<usize> {
+        let g = self.inner.lock().unwrap();
+        let n = (buf.len() as u64).min(g.len.saturating_sub(self.pos)) as usize;
+        let mut done = 0;
+        while done < n {
+            let off = self.pos + done as u64;
+            let (pg, po) = (off / 4096, (off % 4096) as usize);
+            let k = (4096 - po).min(n - done);
+            match g.pages.get(&pg) {
+                Some(p) => buf[done..done + k].copy_from_slice(&p[po..po + k]),
+                None => buf[done..done + k].iter_mut().for_each(|b| *b = 0),
+            }
+            done += k;
+        }
+        drop(g);
+        self.pos += n as u64;
+        Ok(n)
+    }
+}
+impl std::io::Write for SparseRw {
+    fn write(&mut self, buf: &[u8]) -> std::io::Result<usize> {
+        let mut g = self.inner.lock().unwrap();
+        let mut done = 0;
+        while done < buf.len() {
+            let off = self.pos + done as u64;
+            let (pg, po) = (off / 4096, (off % 4096) as usize);
+            let k = (4096 - po).min(buf.len() - done);
+            let chunk = &buf[done..done + k];
+            if let Some(p) = g.pages.get_mut(&pg) {
+                p[po..po + k].copy_from_slice(chunk);
+            } else if chunk.iter().any(|&b| b != 0) {
+                let mut p = Box::new([0u8; 4096]);
+                p[po..po + k].copy_from_slice(chunk);
+                g.pages.insert(pg, p);
+            }
+            done += k;
+        }
+        self.pos += buf.len() as u64;
+        if self.pos > g.len {
+            g.len = self.pos;
+        }
+        Ok(buf.len())
+    }
+    fn flush(&mut self) -> std::io::Result<()> {
+        Ok(())
+    }
+}
+impl std::io::Seek for SparseRw {
+    fn seek(&mut self, pos: std::io::SeekFrom) -> std::io::Result<u64> {
+        let len = self.len();
+        let new: Option<u64> = match pos {
+            std::io::SeekFrom::Start(p) => Some(p),
+            std::io::SeekFrom::End(d) => (len as i128 + d as i128).try_into().ok(),
+            std::io::SeekFrom::Current(d) => (self.pos as i128 + d as i128).try_into().ok(),
+        };
+        match new {
+            Some(p) => {
+                self.pos = p;
+                Ok(p)
+            }
+            None => Err(std::io::Error::new(std::io::ErrorKind::InvalidInput, "seek before start")),
+        }
+    }
+}
+
+/// The library itself grows a version-4 file past 4 GiB (one stream made 4 GiB + 9 MiB long by
+/// set_len, on a sparse backend), writes recognisable blocks where the file offset and the stream
+/// offset pass 2^31 and 2^32 and at the end, and reads them back; then the independent checker
+/// judges the whole image (1030 FAT sectors, a DIFAT sector in version 4) and both open modes
+/// reopen it and read the blocks again.
+pub fn grow_beyond_4gib() -> Result<u64, Violation> {
+    use std::io::{Read, Seek, SeekFrom, Write};
+    let what = "library-written V4 file grown past 4 GiB (set_len on a sparse backend), blocks written around 2^31/2^32, checker + reopen";
+    let fail = |key: &str, detail: String| Violation { key: key.to_string(), detail: format!("[{}] {}", what, detail), case: serde_json::json!({"scenario": what}), trace: vec![] };
+    let io = SparseRw::new();
+    let size: u64 = (4u64 << 30) + (9 << 20) + 777;
+    let spots: Vec<u64> = vec![0, (1u64 << 31) - 70_000, (1u64 << 32) - 70_000, (1u64 << 32) - 3000, size - 9000];
+    let block = |at: u64| -> Vec<u8> { (0..9000u64.min(size - at)).map(|i| sparse_pat(at + i) | 1).collect() };
+    let small: Vec<u8> = pattern(9, 0, 300);
+    let mut steps = 0u64;
+    let written = guard("grow_beyond_4gib", || -> Result<(), String> {
+        let mut c = cfb::CompoundFile::create_with_version(cfb::Version::V4, io.clone()).map_err(|e| format!("create: {}", e))?;
+        c.create_stream("/small").and_then(|mut s| s.write_all(&small)).map_err(|e| format!("small: {}", e))?;
+        let mut s = c.create_stream("/big").map_err(|e| format!("create_stream: {}", e))?;
+        s.write_all(&block(0)).map_err(|e| format!("write: {}", e))?;
+        s.set_len(size).map_err(|e| format!("set_len({}): {}", size, e))?;
+        if s.len() != size {
+            return Err(format!("len() after set_len is {}", s.len()));
+        }
+        for &at in spots.iter().skip(1) {
+            let p = s.seek(SeekFrom::Start(at)).map_err(|e| format!("seek({}): {}", at, e))?;
+            if p != at {
+                return Err(format!("seek(Start({})) returned {}", at, p));
+            }
+            s.write_all(&block(at)).map_err(|e| format!("write at {}: {}", at, e))?;
+        }
+        s.flush().map_err(|e| format!("flush: {}", e))?;
+        drop(s);
+        c.flush().map_err(|e| format!("flush: {}", e))?;
+        Ok(())
+    })
+    .map_err(|f| fail(&f.key, f.detail))?;
+    if let Err(e) = written {
+        return Err(fail("mismatch|grow_beyond_4gib|write|Ok|Err", e));
+    }
+    steps += 1;
+    // the image by the independent checker
+    let img = io.materialise();
+    refparse::MAX_DUMP.with(|m| m.set(1 << 20));
+    let parsed = refparse::parse(&img);
+    refparse::MAX_DUMP.with(|m| m.set(u64::MAX));
+    match parsed {
+        Err(e) => return Err(fail("rule|R00-no-header|beyond_4gib", format!("the image ({} bytes) is not a compound file: {}", img.len(), e))),
+        Ok(p) => {
+            if let Some((id, d)) = p.rules.first() {
+                return Err(fail(&format!("rule|{}|beyond_4gib", id), format!("independent checker: {} - {} [{} rule violations]", id, d, p.rules.len())));
+            }
+            if p.difat_sectors.is_empty() || (img.len() as u64) < size {
+                return Err(fail("harness|scenario", format!("expected a DIFAT sector and an image longer than the stream: {} DIFAT sectors, {} bytes", p.difat_sectors.len(), img.len())));
+            }
+            // where the blocks are, by the checker's own chain walk
+            let id = p.find_id(&["big".to_string()]).ok_or_else(|| fail("mismatch|grow_beyond_4gib|entry|found|missing", "the checker does not find /big".into()))?;
+            for &at in spots.iter() {
+                let b = block(at);
+                let mut got = Vec::new();
+                for (off, n) in p.stream_extents(id, at, at + b.len() as u64) {
+                    got.extend_from_slice(&img[off..off + n]);
+                }
+                if got != b {
+                    return Err(fail("mismatch|grow_beyond_4gib|image_bytes|model_bytes|other_bytes", format!("the bytes written at stream offset {} are not where the FAT chain of /big puts them ({} of {} bytes found, first difference at {:?})", at, got.len(), b.len(), got.iter().zip(b.iter()).position(|(x, y)| x != y))));
+                }
+            }
+        }
+    }
+    drop(img);
+    steps += 1;
+    // reopen in both modes and read back (blocks, zeros in between, the small stream)
+    for strict in [false, true] {
+        let mut peer = io.clone();
+        peer.pos = 0;
+        let opened = guard("open", || open_options(None, strict).open_with(peer)).map_err(|f| fail(&f.key, f.detail))?;
+        let mut c = match opened {
+            Ok(c) => c,
+            Err(e) => return Err(fail(&format!("mismatch|open|grown_beyond_4gib|Ok|Err|{}", if strict { "strict" } else { "permissive" }), format!("open (strict={}) rejects the file the library wrote: {}", strict, e))),
+        };
+        let r = guard("big_reads", || -> Result<(), String> {
+            let mut v = Vec::new();
+            c.open_stream("/small").and_then(|mut s| s.read_to_end(&mut v)).map_err(|e| format!("small: {}", e))?;
+            if v != small {
+                return Err("the small stream changed".into());
+            }
+            let mut s = c.open_stream("/big").map_err(|e| format!("open_stream: {}", e))?;
+            if s.len() != size {
+                return Err(format!("Stream::len() = {}, expected {}", s.len(), size));
+            }
+            for &at in spots.iter() {
+                let b = block(at);
+                s.seek(SeekFrom::Start(at)).map_err(|e| format!("seek({}): {}", at, e))?;
+                let mut buf = vec![0u8; b.len()];
+                s.read_exact(&mut buf).map_err(|e| format!("read_exact at {}: {}", at, e))?;
+                if buf != b {
+                    return Err(format!("the block written at stream offset {} reads back differently (first difference at {:?})", at, buf.iter().zip(b.iter()).position(|(x, y)| x != y)));
+                }
+                // and zeros right behind it (gained by set_len)
+                if at + (b.len() as u64) + 5000 < size {
+                    let mut z = vec![1u8; 5000];
+                    s.read_exact(&mut z).map_err(|e| format!("read_exact behind {}: {}", at, e))?;
+                    if at != 0 && z.iter().any(|&x| x != 0) {
+                        return Err(format!("bytes behind the block at {} are not zero", at));
+                    }
+                }
+            }
+            Ok(())
+        })
+        .map_err(|f| fail(&f.key, f.detail))?;
+        if let Err(e) = r {
+            return Err(fail(&format!("mismatch|read|grown_beyond_4gib|{}", if strict { "strict" } else { "permissive" }), e));
+        }
+        steps += 1;
+    }
+    Ok(steps)
+}
